@@ -78,7 +78,46 @@ Theorem cw_name_extra_parts_refuted :
   let hostk := ([72; 111; 115; 116], [97]) in
   let st := cw_add_static cw_store0 hostk false [] in
   cw_name_parts_m false true [97; 33; 98; 33; 99] = Some ([98], Some [97]) /\
-  let '(st', r) := cw_create st svc [97; 33; 98; 33; 99] true (CwoOk [97; 33; 98] [hostk]) in
+  let '(st', r) := cw_create st svc [97; 33; 98; 33; 99] true [120] (CwoOk [97; 33; 98] [hostk]) in
   r = CwrOk /\ cw_find (svc, [97; 33; 98; 33; 99]) st' = None /\
   (exists o, cw_find (svc, [97; 33; 98]) st' = Some o /\ co_runtime o = true) /\ cs_files st' = [].
+Proof. vm_compute. repeat split; try reflexivity. eexists. split; reflexivity. Qed.
+
+(* Seeded-change class "pre-check by config item".  If the "already exists" pre-check of CreateObject consults the
+   config ITEM registry, a second create of an existing object of a composite-name type (its item is unnamed) is not
+   stopped: the existing object's file is overwritten, the commit fails on the duplicate name, the clean-up removes the
+   file - the request fails as it should, but the EXISTING object has lost its file. *)
+Theorem cw_precheck_by_item_refuted :
+  let svc := [83; 101; 114; 118; 105; 99; 101] in
+  let hostk := ([72; 111; 115; 116], [97]) in
+  let st0 := cw_add_static cw_store0 hostk false [] in
+  let st1 := fst (cw_create_m true st0 svc [97; 33; 98] true [49] (CwoOk [97; 33; 98] [hostk])) in
+  cw_fget (svc, [97; 33; 98]) (cs_files st1) = Some [49] /\
+  (* by object: refused, nothing changes *)
+  cw_create_m true st1 svc [97; 33; 98] true [50] (CwoOk [97; 33; 98] [hostk]) = (st1, CwrFail) /\
+  (* by item: refused as well, but the file of the existing object is gone *)
+  let '(st2, r) := cw_create_m false st1 svc [97; 33; 98] true [50] (CwoOk [97; 33; 98] [hostk]) in
+  r = CwrFail /\ (exists o, cw_find (svc, [97; 33; 98]) st2 = Some o /\ co_runtime o = true) /\
+  cw_fget (svc, [97; 33; 98]) (cs_files st2) = None /\ st2 <> st1.
+Proof.
+  vm_compute. split; [reflexivity|]. split; [reflexivity|]. split; [reflexivity|]. split; [eexists; split; reflexivity|].
+  split; [reflexivity|]. intros H. discriminate H.
+Qed.
+
+(* The same defect as F-C17-e in the five host!name | host!service!name composers (Notification, Dependency,
+   ScheduledDowntime, Comment, Downtime), as pinned: "a!b!c!d" is parsed as host a, service b, name c - the object is
+   registered as "a!b!c", the requested name has no object, the file is removed, success is reported.  Likewise an empty
+   middle part ("a!!c" is created as the HOST object "a!c"). *)
+Theorem cw_composite_name_extra_parts_refuted :
+  let nty := [78] in
+  let hostk := ([72; 111; 115; 116], [97]) in
+  let svck := ([83; 101; 114; 118; 105; 99; 101], [97; 33; 98]) in
+  let st := cw_add_static (cw_add_static cw_store0 hostk false []) svck true [hostk] in
+  cw_name_parts3_m false [97; 33; 98; 33; 99; 33; 100] = Some ([99], [97], Some [98]) /\
+  cw_name_parts3_m true [97; 33; 98; 33; 99; 33; 100] = None /\
+  cw_name_parts3_m false [97; 33; 33; 99] = Some ([99], [97], Some []) /\
+  cw_name_parts3_m true [97; 33; 33; 99] = None /\
+  let '(st', r) := cw_create_m true st nty [97; 33; 98; 33; 99; 33; 100] true [120] (CwoOk [97; 33; 98; 33; 99] [hostk; svck]) in
+  r = CwrOk /\ cw_find (nty, [97; 33; 98; 33; 99; 33; 100]) st' = None /\
+  (exists o, cw_find (nty, [97; 33; 98; 33; 99]) st' = Some o /\ co_runtime o = true) /\ cs_files st' = [].
 Proof. vm_compute. repeat split; try reflexivity. eexists. split; reflexivity. Qed.
